@@ -1,8 +1,8 @@
-\* MCShrex_full.cfg -- generated from checks/X_limits.py (job sh_full_scopes); run: tlc -config MCShrex_full.cfg MCShrexLimits.tla
+\* MCShrex_live.cfg -- generated from checks/X_limits.py (job sh_live); run: tlc -config MCShrex_live.cfg MCShrexLimits.tla
 CONSTANTS
   Peers = {1, 2}
-  Protos = {1, 2}
-  Streams = {1, 2, 3}
+  Protos = {1}
+  Streams = {1, 2}
   PeerIP <- MCPeerIP
   Need <- MCNeed
   ProtoLim <- MCProtoLim
@@ -17,21 +17,19 @@ CONSTANTS
   ProtoLim2 = 3
   ProtoPeerLim1 = 1
   ProtoPeerLim2 = 2
-  SvcLim = 3
+  SvcLim = 1
   SvcPeerLim = 2
-  SvcMem = 5
+  SvcMem = 4
   SvcPeerMem = 4
   Burst = 2
   Rate = 1
   Grace = 1
-  RateOn = FALSE
+  RateOn = TRUE
   Atomic = FALSE
   CloseOnLimit = TRUE
   WatchTime = 0
   Hows = {"served", "failed", "panicked"}
-INIT MCInit
+SPECIFICATION MCFairSpecNoWatch
 VIEW View
+PROPERTIES StreamsEnd ServiceSlotsComeBack
 CHECK_DEADLOCK FALSE
-NEXT MCNextNoWatch
-INVARIANTS TypeOK CountersExact MemoryExact WithinLimits QuiescentFree ExpiryGrantsNothing BucketKeptWhileNotFull
-PROPERTIES RefusedStreamEnds
